@@ -107,12 +107,13 @@ static int check_model(const rsig *s, const char *what) {
 }
 
 /* ------------------------------------------------------------------ mutation catalogue */
-#define NMUT 34
+#define NMUT 46
 static const char *MUTNAME[NMUT] = {
 	"chain1-input", "chainlast-input", "rfc-suffix", "chain1-time", "chainlast-time", "rfc-time", "cal-input", "cal-aggrtime-consistent",
 	"cal-flip-link", "cal-drop-link", "cal-add-link", "auth-time", "auth-hash", "pub-time", "pub-hash", "index-last-top", "index-last-bottom",
 	"meta-imprint-like", "meta-pad-flags", "meta-pad-tlv16", "meta-pad-value", "meta-pad-odd", "meta-pad-not-first", "meta-pad-twice",
-	"index-extra", "index-prefix", "rfc-index", "doc-sha1", "chain-sha1", "rfc-tst-sha1", "rfc-sig-sha1", "rfc-out-sha1", "all-times-shift", "cal-no-aggrtime"
+	"index-extra", "index-prefix", "rfc-index", "doc-sha1", "chain-sha1", "rfc-tst-sha1", "rfc-sig-sha1", "rfc-out-sha1", "all-times-shift", "cal-no-aggrtime",
+	"meta-padv-00", "meta-padv-ff", "meta-padv-0201", "meta-padv-0001", "meta-padv-ff01", "meta-padv-0102", "meta-padv-0100", "meta-padv-0202", "meta-padv-empty", "meta-padv-010101", "meta-padv-0101-ok", "meta-padv-01-ok"
 };
 
 static rlink *find_meta(rsig *s, int *chain) {
@@ -181,6 +182,18 @@ static int mutate(rsig *s, int m) {
 				case 22: rtlv_put_str(&b, 0x01, "cli"); rtlv_put(&b, 0x1e, 1, 1, one, 2, 0); break;            /* not first */
 				default: rtlv_put(&b, 0x1e, 1, 1, one, 2, 0); rtlv_put(&b, 0x1e, 1, 1, one, 2, 0); rtlv_put_str(&b, 0x01, "cli"); break;
 			}
+			set_meta(ml, b.p, b.n); vb_free(&b);
+			return rs_fix(s, RS_FIX_INPUTS | RS_FIX_CAL_IN | RS_FIX_TAIL);
+		}
+		case 34: case 35: case 36: case 37: case 38: case 39: case 40: case 41: case 42: case 43: case 44: case 45: {
+			/* every interesting padding value: the total length is kept even by the choice of the client id */
+			static const unsigned char V[12][3] = {{0x00}, {0xff}, {0x02, 0x01}, {0x00, 0x01}, {0xff, 0x01}, {0x01, 0x02}, {0x01, 0x00}, {0x02, 0x02}, {0}, {0x01, 0x01, 0x01}, {0x01, 0x01}, {0x01}};
+			static const size_t VL[12] = {1, 1, 2, 2, 2, 2, 2, 2, 0, 3, 2, 1};
+			size_t vl = VL[m - 34];
+			if (!(ml = find_meta(s, &ci))) return -1;
+			vb_init(&b);
+			rtlv_put(&b, 0x1e, 1, 1, V[m - 34], vl, 0);
+			rtlv_put_str(&b, 0x01, ((2 + vl + 2 + 4) % 2 == 0) ? "cli" : "clie");   /* padding TLV + (01 len "cli\0") even in total */
 			set_meta(ml, b.p, b.n); vb_free(&b);
 			return rs_fix(s, RS_FIX_INPUTS | RS_FIX_CAL_IN | RS_FIX_TAIL);
 		}
